@@ -660,6 +660,20 @@ class _SetOperation(Selectable, Term):
         # lets a set operation be used as an operand of another one (arity check and rendering)
         return self.base_query._selects
 
+    def __eq__(self, other: Any) -> bool:
+        # like QueryBuilder: a selectable compares as an object (Term.__eq__ would build a criterion, which is
+        # truthy, so `table in [set_operation]` held for every table)
+        if not isinstance(other, _SetOperation):
+            return False
+
+        return self.alias == other.alias and self.base_query == other.base_query
+
+    def __ne__(self, other: Any) -> bool:
+        return not self.__eq__(other)
+
+    def __hash__(self) -> int:
+        return hash(self.alias) + hash(self.base_query)
+
     def __str__(self) -> str:
         return self.get_sql()
 
